@@ -986,6 +986,8 @@ def run(ctx):
 
 
 def replay(obj):
+    if obj.get("kind") in ("no-failing-input-found", "correspondence") or obj.get("correspondence"):
+        return vlib.replay_correspondence(obj)
     print(json.dumps(obj, indent=1, ensure_ascii=True)[:3000])
     r = obj.get("replay", obj)
     if isinstance(r, dict) and "prql" in r:
